@@ -164,6 +164,55 @@ def free_text(rng, allow_empty=True, quotes=True):
     return " ".join(rng.choice(ws) for _ in range(rng.randrange(1, 5)))
 
 
+# C14's quantifier claims the round trip for "single-line descriptions without '#'" - free text as people type it, not a list
+# of blank-separated tokens: two blanks after a full stop, columns aligned with tabs, colons, quotes, brackets, every printable
+# punctuation character.  The importer reads a description as "everything after the first colon of the line" and the formula of a
+# Function term as "everything after the class name": the interior of both must come back unchanged.
+# Left out: texts that begin or end with a blank (the key / value cutter strips both ends).
+SEPARATORS = [" ", " ", " ", "  ", "   ", "\t", " \t", "\t\t", "  \t  ", ".  ", ": ", " : ", ":", ",  ", " -  ", "\u00a0", "      "]
+PUNCTUATION = [c for c in "!\"$%&'()*+,-./:;<=>?@[\\]^_`{|}~"]
+
+
+def spaced_text(rng, quotes=True):
+    """a single-line text without '#' whose first and last characters are visible: words and punctuation separated by single
+    blanks, runs of blanks, tabs, no-break spaces and mixtures of them"""
+    ok = [c for c in PUNCTUATION if quotes or c not in "'\"\\"]
+    ws = [w for w in WORDS if quotes or ("'" not in w and '"' not in w and "\\" not in w)] + ["Simple", "dimmer.", "x", "1", "::", "key: value"]
+    n = rng.randrange(2, 7)
+    out = ""
+    for i in range(n):
+        w = rng.choice(ws) if rng.random() < 0.75 else "".join(rng.choice(ok) for _ in range(rng.randrange(1, 4)))
+        out += w + (rng.choice(SEPARATORS) if i + 1 < n else "")
+    return out
+
+
+FORMULA_TOKEN = __import__("re").compile(r"[A-Za-z_][A-Za-z_0-9]*|\d+\.?\d*(?:[eE][-+]?\d+)?|\*\*|[-+*/^%~!(),]|\S")
+
+
+def spaced_formula(rng, formula):
+    """the same formula typed with other spacing between its tokens (none next to a parenthesis or comma, one blank, runs of
+    blanks, tabs); the first and last characters stay visible"""
+    toks = FORMULA_TOKEN.findall(formula)
+    out = toks[0] if toks else formula
+    for a, b in zip(toks, toks[1:]):
+        tight = (a in "(," or b in "(),") and rng.random() < 0.5
+        out += ("" if tight else rng.choice([" ", " ", "  ", "   ", "\t", " \t ", "     "])) + b
+    return out
+
+
+def respace(rng, spec, quotes=True):
+    """rewrites (in place) the descriptions of the engine, its variables and rule blocks and the formulas of its Function terms
+    with `spaced_text` / `spaced_formula`"""
+    for holder in [spec] + spec["inputs"] + spec["outputs"] + spec["blocks"]:
+        if rng.random() < 0.8:
+            holder["description"] = spaced_text(rng, quotes=quotes)
+    for v in spec["inputs"] + spec["outputs"]:
+        for t in v["terms"]:
+            if t["cls"] == "Function":
+                t["formula"] = spaced_formula(rng, t["formula"])
+    return spec
+
+
 WEIRD_TERM_NAMES = ["t 1", "9lives", "a-b", "x.y", "(p)", "__", "m&m", "3", "a b c", "z!"]
 
 
@@ -217,18 +266,52 @@ def gen_term(rng, cls_name, name, d, mode, inputs, representable):
     return spec
 
 
+def unhex_value(v):
+    """a substitution variable of a Function term: a number or (a list) an array of numbers"""
+    return np.array([unhex(x) for x in v], dtype=float) if isinstance(v, list) else unhex(v)
+
+
+# the ways the public interface offers to arrive at the same term (spec key "via"; absent = the constructor with
+# positional parameters, a flat list for Discrete): every one must give the same object, in particular the same
+# order of the pairs of a Discrete term
+DISCRETE_PATHS = ["list", "array", "configure", "attribute", "create-tuple", "create-list", "create-text"]
+
+
 def build_term(spec):
     cls = term_classes()[spec["cls"]]
     name = spec["name"]
+    via = spec.get("via", "list")
     if spec["cls"] == "Function":
-        return cls(name, spec["formula"], variables={k: unhex(v) for k, v in spec.get("variables", {}).items()})
+        return cls(name, spec["formula"], variables={k: unhex_value(v) for k, v in spec.get("variables", {}).items()})
     if spec["cls"] == "Linear":
         return cls(name, [unhex(v) for v in spec["coefficients"]])
     kw = {}
     if "height" in spec:
         kw["height"] = unhex(spec["height"])
     if spec["cls"] == "Discrete":
-        return cls(name, [unhex(v) for v in spec["values"]], **kw)
+        vals = [unhex(v) for v in spec["values"]]
+        xs, ys = vals[0::2], vals[1::2]
+        if via == "array":
+            return cls(name, np.array(list(zip(xs, ys)), dtype=float).reshape(-1, 2), **kw)
+        if via == "configure":
+            t = cls(name)
+            t.configure(" ".join(repr(v) for v in vals + ([kw["height"]] if "height" in kw else [])))
+            return t
+        if via == "attribute":
+            t = cls(name, **kw)
+            t.values = np.array(list(zip(xs, ys)), dtype=float).reshape(-1, 2)
+            return t
+        if via == "create-tuple":
+            return cls.create(name, (xs, ys), **kw)
+        if via == "create-list":
+            return cls.create(name, vals, **kw)
+        if via == "create-text":
+            return cls.create(name, " ".join(repr(v) for v in vals), **kw)
+        return cls(name, vals, **kw)
+    if via == "configure":
+        t = cls(name)
+        t.configure(" ".join(repr(unhex(v)) for v in spec["params"] + ([spec["height"]] if "height" in spec else [])))
+        return t
     return cls(name, *[unhex(v) for v in spec["params"]], **kw)
 
 
@@ -428,6 +511,155 @@ def heights_and_weights(spec):
 
 def spec_is_fragile(spec, d):
     return any(fragile_height(h, d) for h, _ in heights_and_weights(spec))
+
+
+# --------------------------------------------------------------------------------------------- layouts and sizes
+
+def names_of(spec):
+    used = {v["name"] for v in spec["inputs"] + spec["outputs"]}
+    used |= {t["name"] for v in spec["inputs"] + spec["outputs"] for t in v["terms"]}
+    return used
+
+
+def references(spec):
+    """({input name: referable term names}, {output name: ...}) as `gen_rule` takes them"""
+    def of(vs):
+        return {v["name"]: [t["name"] for t in v["terms"] if t["name"] not in WEIRD_TERM_NAMES] for v in vs
+                if any(t["name"] not in WEIRD_TERM_NAMES for t in v["terms"])}
+    return of(spec["inputs"]), of(spec["outputs"])
+
+
+def discrete_layouts(rng, spec, d, mode, p_other=0.3):
+    """"every engine" includes Discrete terms whose pairs are not in ascending order of x (descending, shuffled, with a
+    repeated abscissa) and terms that were not built by the constructor call the exporters print: each Discrete term gets
+    an order and one of the construction paths `DISCRETE_PATHS`, other shape terms are configured from their parameter
+    text with probability `p_other` (in place)"""
+    for v in spec["inputs"] + spec["outputs"]:
+        for t in v["terms"]:
+            if t["cls"] == "Discrete":
+                pairs = list(zip(t["values"][0::2], t["values"][1::2]))
+                if len(pairs) < 3 and rng.random() < 0.7:
+                    pairs += [(fhex(number(rng, d, mode)), fhex(number(rng, d, mode, 0.0, 1.0))) for _ in range(rng.randrange(1, 4))]
+                how = rng.choice(["reverse", "shuffle", "shuffle", "repeat", "repeat-apart", "keep"])
+                if how == "reverse":
+                    pairs.reverse()
+                elif how == "shuffle":
+                    rng.shuffle(pairs)
+                elif how.startswith("repeat"):
+                    x = rng.choice(pairs)[0]
+                    extra = (x, fhex(number(rng, d, mode, 0.0, 1.0)))
+                    pairs.insert(rng.randrange(len(pairs) + 1) if how == "repeat-apart" else pairs.index(next(p for p in pairs if p[0] == x)), extra)
+                t["values"] = [v_ for pr in pairs for v_ in pr]
+                t["via"] = rng.choice(DISCRETE_PATHS)
+            elif "params" in t and rng.random() < p_other:
+                t["via"] = "configure"
+    return spec
+
+
+# the sizes at which `reprlib` starts to abbreviate (defaults of reprlib.Repr: 4 dict entries, 5 array elements, 6 list / tuple
+# / set elements, 30 characters of a string or of any other object, 40 digits of an integer, 6 levels of nesting)
+def sizes_around(rng, limit, most):
+    return rng.choice([limit, limit + 1, limit + 1, limit + 2, 2 * limit + 1, rng.randrange(limit + 1, most + 1), most])
+
+
+def enlarge(rng, spec, d, mode, kinds=None):
+    """"every engine" has no size limit: pushes the sizes of the engine (in place) to and beyond every size at which a
+    generic representation abbreviates: entries of Function.variables (also array-valued: one level deeper), pairs of a
+    Discrete term, coefficients of a Linear term (with the input variables they need), terms of a variable, rules of a
+    block, variables of the engine, lengths of descriptions / names / formulas / rule texts, digits of an integer
+    parameter.  Returns the kinds applied."""
+    all_kinds = ["variables", "variables", "discrete", "inputs+coefficients", "terms", "rules", "texts", "digits", "blocks"]
+    kinds = kinds or rng.sample(all_kinds, rng.randrange(1, 4))
+    used = names_of(spec)
+    in_names = [v["name"] for v in spec["inputs"]]
+    for kind in kinds:
+        if kind == "variables":
+            n = sizes_around(rng, 4, 40)
+            ks = []
+            while len(ks) < n:
+                k = f"k{len(ks)}" if f"k{len(ks)}" not in used else ident(rng, used, "k")
+                used.add(k)
+                ks.append(k)
+            vals = {k: fhex(number(rng, d, mode)) for k in ks}
+            if rng.random() < 0.25:      # an array as the value of a substitution variable: dict -> array, one level deeper
+                vals[ks[rng.randrange(n)]] = [fhex(number(rng, d, mode)) for _ in range(sizes_around(rng, 5, 12))]
+            picked = rng.sample(ks, min(n, rng.randrange(1, 6)))
+            formula = " + ".join(f"{k} * {rng.choice(in_names + ['x'])}" if rng.random() < 0.6 else k for k in picked)
+            v = rng.choice(spec["inputs"] + spec["outputs"])
+            v["terms"].append({"cls": "Function", "name": ident(rng, used), "formula": formula, "variables": vals})
+        elif kind == "discrete":
+            n = sizes_around(rng, 5, 200)
+            xs = sorted(number(rng, d, mode) for _ in range(n))
+            vals = [fhex(x) for pr in zip(xs, (number(rng, d, mode, 0.0, 1.0) for _ in xs)) for x in pr]
+            v = rng.choice(spec["inputs"] + spec["outputs"])
+            v["terms"].append({"cls": "Discrete", "name": ident(rng, used), "values": vals,
+                               "height": fhex(height_pool(rng, d, True))})
+        elif kind == "inputs+coefficients":
+            n = sizes_around(rng, 6, 10)
+            while len(spec["inputs"]) < n:
+                nm = ident(rng, used)
+                spec["inputs"].append({"name": nm, "description": "", "enabled": True, "minimum": fhex(0.0), "maximum": fhex(1.0),
+                                       "lock_range": False,
+                                       "terms": [gen_term(rng, "Triangle", ident(rng, used), d, mode, in_names, True)]})
+                in_names.append(nm)
+            o = rng.choice(spec["outputs"])
+            o["terms"].append({"cls": "Linear", "name": ident(rng, used),
+                               "coefficients": [fhex(number(rng, d, mode)) for _ in range(len(in_names) + rng.choice([0, 1]))]})
+        elif kind == "terms":
+            v = rng.choice(spec["inputs"] + spec["outputs"])
+            n = sizes_around(rng, 6, 20)
+            tcs = [c for c in term_classes() if c not in ("Linear", "Function")]
+            while len(v["terms"]) < n:
+                v["terms"].append(gen_term(rng, rng.choice(tcs), ident(rng, used), d, mode, in_names, True))
+        elif kind == "rules":
+            ins, outs = references(spec)
+            if ins and outs:
+                if not spec["blocks"]:
+                    spec["blocks"].append({"name": "many", "description": "", "enabled": True, "conjunction": "Minimum",
+                                           "disjunction": "Maximum", "implication": "Minimum", "activation": {"cls": "General"},
+                                           "rules": []})
+                b = rng.choice(spec["blocks"])
+                n = sizes_around(rng, 6, 30)
+                while len(b["rules"]) < n:
+                    b["rules"].append(gen_rule(rng, ins, outs, d, True))
+        elif kind == "blocks":
+            n = sizes_around(rng, 6, 9)
+            while len(spec["blocks"]) < n:
+                spec["blocks"].append({"name": ident(rng, used), "description": "", "enabled": rng.random() < 0.8,
+                                       "conjunction": gen_norm(rng, "t"), "disjunction": gen_norm(rng, "s"),
+                                       "implication": gen_norm(rng, "t"), "activation": gen_activation(rng, d, mode), "rules": []})
+        elif kind == "texts":
+            def long_text(most):
+                n = sizes_around(rng, 30, most)
+                s = ""
+                while len(s) < n:
+                    s += (" " if s else "") + rng.choice(WORDS)
+                return s[:n].rstrip() or "x"
+            spec["description"] = long_text(400)
+            spec["name"] = long_text(80)
+            for holder in spec["inputs"] + spec["outputs"] + spec["blocks"]:
+                if rng.random() < 0.5:
+                    holder["description"] = long_text(200)
+            v = rng.choice(spec["inputs"] + spec["outputs"])
+            v["terms"].append(gen_term(rng, "Triangle", ident(rng, used, "long_" + "n" * sizes_around(rng, 30, 60)), d, mode, in_names, True))
+            ins, outs = references(spec)
+            if ins and outs and spec["blocks"]:
+                r = gen_rule(rng, ins, outs, d, True)
+                for _ in range(sizes_around(rng, 6, 12)):
+                    r["antecedent"] += " " + rng.choice(["and", "or"]) + " " + gen_rule(rng, ins, outs, d, True)["antecedent"].replace("( ", "").replace(" )", "")
+                rng.choice(spec["blocks"])["rules"].append(r)
+            fn = [t for v_ in spec["inputs"] + spec["outputs"] for t in v_["terms"] if t["cls"] == "Function"]
+            for t in fn:
+                t["formula"] = "(" + t["formula"] + ")" + "".join(f" + {i}.5 * 0" for i in range(sizes_around(rng, 4, 12)))
+        elif kind == "digits":
+            # the number of rules of First / Last / Highest / Lowest is an integer without an upper bound
+            n = sizes_around(rng, 40, 48)
+            for b in spec["blocks"]:
+                if b["activation"] and "rules" in b["activation"]:
+                    b["activation"]["rules"] = 10 ** (n - 1) + rng.randrange(10 ** 6)
+            if not any(b["activation"] and "rules" in b["activation"] for b in spec["blocks"]) and spec["blocks"]:
+                rng.choice(spec["blocks"])["activation"] = {"cls": rng.choice(["Highest", "Lowest"]), "rules": 10 ** (n - 1) + rng.randrange(10 ** 6)}
+    return kinds
 
 
 # --------------------------------------------------------------------------------------------- real engine -> model
